@@ -221,7 +221,7 @@ func runC03(c *fw.Ctx) {
 	// the same exploration over the single-file cases of the shared streams: every document in
 	// which some map range sees two or more keys gets all its iteration orders (documents are
 	// distributed over the workers, the orders of one document stay with one worker)
-	which := map[string]bool{"pool": true, "variants": true, "paste": true, "multi": true, "names": true}
+	which := map[string]bool{"pool": true, "variants": true, "paste": true, "multi": true, "names": true, "schema-rules": true}
 	if !c.Quick() {
 		which["corpus"] = true
 	}
